@@ -16,6 +16,12 @@ var droppedPkgs = []string{
 	"github.com/logrusorgru/aurora",
 }
 
+// callThrough: higher-order helpers of the repository that run their function argument once (argument index).
+var callThrough = map[string]int{
+	"github.com/formancehq/ledger/internal/tracing.TraceWithMetric": 4,
+	"github.com/formancehq/ledger/internal/tracing.Trace":           3,
+}
+
 func (fv *FV) isDropped(f *types.Func) bool {
 	if f.Pkg() == nil {
 		return false
@@ -148,6 +154,22 @@ func (fv *FV) callFunc(st *State, call *ast.CallExpr, callee *types.Func, sel *a
 	if fc := fv.p.Contracts[key]; fc != nil {
 		return fv.applyContract(st, call, fc, sel, sig)
 	}
+	if idx, ok := callThrough[key]; ok && idx < len(call.Args) {
+		if lit, ok := stripParens(call.Args[idx]).(*ast.FuncLit); ok {
+			for i, a := range call.Args {
+				if i != idx {
+					fv.evalExprLoose(st, a)
+				}
+			}
+			fv.note("ASSUMED call-through: " + key + " calls its function argument exactly once and returns its results")
+			// the literal receives a context as its only argument
+			var fake []ast.Expr
+			if lit.Type.Params != nil && len(lit.Type.Params.List) == 1 && len(call.Args) > 0 {
+				fake = []ast.Expr{call.Args[0]}
+			}
+			return fv.inlineLit(st, lit, fake, call.Pos())
+		}
+	}
 	if rs, ok := fv.applyModel(st, call, callee, sel); ok {
 		return rs
 	}
@@ -166,11 +188,7 @@ func (fv *FV) callFunc(st *State, call *ast.CallExpr, callee *types.Func, sel *a
 		fv.evalExpr(st, sel.X)
 	}
 	fv.evalArgs(st, call, sig)
-	fv.note("uninterpreted call (results unconstrained): " + callee.FullName())
-	// reference-typed argument locations may be modified
-	ms := &modSet{objs: map[types.Object]bool{}, ghosts: map[string]bool{}, direct: map[types.Object]bool{}}
-	fv.callMods(call, ms)
-	fv.havoc(st, ms)
+	fv.note("uninterpreted call (results unconstrained; ASSUMED not to modify its arguments or ghost state): " + callee.FullName())
 	return fv.freshResults(st, call, callee.Name())
 }
 
